@@ -30,6 +30,14 @@ def run(rep: Report, repo: Repo):
 
 
 def map_rules(rep, repo, with_heap=True):
+    from checks import c07
+    n0 = len(rep.violations)
+    r = _map_rules(rep, repo, with_heap=with_heap)
+    c07.structural_guard(rep, repo, n0)
+    return r
+
+
+def _map_rules(rep, repo, with_heap=True):
     """Pins / alloc / alias / size rules of the memory map (also included by C01, C02, C03, C05, C06 whose results
     depend on live signals not being overwritten)."""
     smod, init = simops.simops_init(repo)
